@@ -59,7 +59,7 @@ class MQueue(Model):
 
 
 def m_deque(it=()):
-    return list(it)
+    return MDeque(it)
 
 
 def m_counter(it=()):
@@ -131,6 +131,63 @@ class MFunctools(Model):
     reduce = staticmethod(functools.reduce)
 
 
+def bind_with_decorators(fdef, clo, obj):
+    decs = {ast.unparse(d).split(".")[-1].split("(")[0] for d in fdef.decorator_list}
+    unknown = decs - {"staticmethod", "classmethod", "property", "lru_cache", "cache", "cached_property", "wraps"}
+    if unknown:
+        raise Unsupported(f"decorator(s) {sorted(unknown)} on {fdef.name}")
+    if "staticmethod" in decs:
+        return lambda *a, **k: clo(*a, **k)
+    if "classmethod" in decs:
+        return lambda *a, **k: clo(type(obj), *a, **k)
+    f = lambda *a, **k: clo(obj, *a, **k)
+    if "property" in decs or "cached_property" in decs:
+        f._is_property = True
+    return f
+
+
+class MDeque(Model):
+    def __init__(self, it=()):
+        self._d = list(it)
+
+    def append(self, x):
+        self._d.append(x)
+
+    def appendleft(self, x):
+        self._d.insert(0, x)
+
+    def pop(self):
+        if not self._d:
+            raise ModelRaise("IndexError", "pop from an empty deque")
+        return self._d.pop()
+
+    def popleft(self):
+        if not self._d:
+            raise ModelRaise("IndexError", "pop from an empty deque")
+        return self._d.pop(0)
+
+    def extend(self, it):
+        self._d.extend(it)
+
+    def clear(self):
+        self._d.clear()
+
+    def __len__(self):
+        return len(self._d)
+
+    def __iter__(self):
+        return iter(list(self._d))
+
+    def __bool__(self):
+        return bool(self._d)
+
+    def __contains__(self, x):
+        return x in self._d
+
+    def __getitem__(self, i):
+        return self._d[i]
+
+
 class RepoInstance(Model):
     """Instance of a class *defined by the repository*: attributes are stored on the object, every method
     (dunder methods included) is a closure evaluated from the class's source."""
@@ -155,8 +212,10 @@ class RepoInstance(Model):
             raise AttributeError(name)
         bi = BlockInterp(dict(pkg.env(rel)), max_steps=pkg.max_steps)
         clo = bi.make_closure(pkg.repo.funcs[key].node)
-        inst = self
-        ms[name] = lambda *a, **k: clo(inst, *a, **k)
+        bound = bind_with_decorators(pkg.repo.funcs[key].node, clo, self)
+        if getattr(bound, "_is_property", False):
+            return bound()
+        ms[name] = bound
         return ms[name]
 
     def _dunder(self, name, *a):
@@ -222,7 +281,8 @@ class Package:
         fi = self.repo.funcs[("circuit.py", f"{cls}.{name}")]
         bi = BlockInterp(dict(self.env("circuit.py")), max_steps=self.max_steps)
         clo = bi.make_closure(fi.node)
-        return lambda *a, **k: clo(obj, *a, **k)
+        bound = bind_with_decorators(fi.node, clo, obj)
+        return bound() if getattr(bound, "_is_property", False) else bound
 
     # ---- the `cg` namespace -------------------------------------------
     def _cg_attr(self, name):
